@@ -111,6 +111,12 @@ impl<'a> Reader<'a> {
     }
 }
 
+#[cfg(feature = "verif")]
+impl Reader<'_> {
+    /// Verification hook: size of the internal buffer, so simulated deliveries can aim at its boundary.
+    pub const VERIF_BUF_SIZE: usize = Reader::BUF_SIZE;
+}
+
 pub trait Readable {
     fn read(reader: &mut Reader) -> Self;
 }
